@@ -257,3 +257,5 @@ def r17_5(ctx):
 
 
 RULES = [("R17.1", r17_1), ("R17.2", r17_2), ("R17.3", r17_3), ("R17.3b", r17_3b), ("R17.4", r17_4), ("R17.5", r17_5)]
+MULTI_CONFIG_RULES = ("R17.1", "R17.2", "R17.3", "R17.3b", "R17.4", "R17.5")
+THOROUGH_CONFIGS = []
